@@ -167,6 +167,37 @@ def request_terms(fr_or_req):
 
 
 # ------------------------------------------------------------------------------------------ loop contracts
+def _roles(fr, ctx):
+    """Bind the loop contract to the code by ROLE, not by the names of temporaries: the lists are the ones the loop
+    guard tests (`while <pool> and count > len(<output>)`), the timestamp is what the body copies into start_time, the
+    request is the method's first parameter.  Falls back to the current names."""
+    import ast
+    node = ctx.node
+    r = {}
+    if isinstance(node, ast.While):
+        for n in ast.walk(node.test):
+            if isinstance(n, ast.Call) and isinstance(n.func, ast.Name) and n.func.id == 'len' and n.args and isinstance(n.args[0], ast.Name):
+                r['output'] = n.args[0].id
+        tests = node.test.values if isinstance(node.test, ast.BoolOp) else [node.test]
+        for t in tests:
+            if isinstance(t, ast.Name):
+                r['pool'] = t.id
+        for n in ast.walk(node):
+            if isinstance(n, ast.Call) and isinstance(n.func, ast.Attribute) and n.func.attr == 'pop' and isinstance(n.func.value, ast.Name):
+                r.setdefault('pool', n.func.value.id)
+            if isinstance(n, ast.Call) and isinstance(n.func, ast.Attribute) and n.func.attr == 'CopyFrom' and n.args and isinstance(n.args[0], ast.Name) \
+                    and isinstance(n.func.value, ast.Attribute) and n.func.value.attr == 'start_time':
+                r['start'] = n.args[0].id
+    f = fr
+    while f is not None and f.func is None:
+        f = f.parent
+    if f is not None and len(f.func.node.args.args) >= 2:
+        r['request'] = f.func.node.args.args[1].arg
+    out = {'output': r.get('output', 'output_trials'), 'pool': r.get('pool'), 'start': r.get('start', 'start_time'),
+           'request': r.get('request', 'request')}
+    return out
+
+
 def _static_facts(run, sk):
     """Loop-independent facts about the lists built before the pool loop (proved at loop entry from the list and
     comprehension axioms, then available at every loop head): shortcuts for the quantifier instantiation."""
@@ -189,13 +220,14 @@ def _static_facts(run, sk):
 def _inv_pool(it, fr, ctx):
     """while requested_trials and request.suggestion_count > len(output_trials)   (Appendix C, pool loop)"""
     run = it.run
-    req = fr.env['request']
+    ro = _roles(fr, ctx)
+    req = fr.env[ro['request']]
     client, count, sk = request_terms(req)
-    out, reqs = fr.env['output_trials'], fr.env['requested_trials']
-    start = fr.env['start_time'].pack()
+    out, reqs = fr.env[ro['output']], fr.env[ro['pool'] or 'requested_trials']
+    start = fr.env[ro['start']].pack()
     if ctx.phase == 'init':
-        run.sg = {'A': ctx.entry_vals['output_trials'], 'P': ctx.entry_vals['requested_trials'],
-                  'Dpool0': dict(run.ghost), 'start': start, 'L': ctx.entry_vals['all_trials']}
+        run.sg = {'A': ctx.entry_vals[ro['output']], 'P': ctx.entry_vals[ro['pool'] or 'requested_trials'],
+                  'Dpool0': dict(run.ghost), 'start': start}
     A, P, Dp = run.sg['A'], run.sg['P'], run.sg['Dpool0']
     j = z3.Int('j!ip')
     k = z3.Const('k!ip', Name)
@@ -234,11 +266,12 @@ def _name_facts(nk):
 def _inv_create(it, fr, ctx):
     """while new_trials and request.suggestion_count > len(output_trials): pop a new trial, give it id max+1, create it."""
     run = it.run
-    req = fr.env['request']
+    ro = _roles(fr, ctx)
+    req = fr.env[ro['request']]
     client, count, sk = request_terms(req)
-    out, new = fr.env['output_trials'], fr.env['new_trials']
+    out, new = fr.env[ro['output']], fr.env[ro['pool'] or 'new_trials']
     if ctx.phase == 'init':
-        run.sg.update({'NT': ctx.entry_vals['new_trials'], 'out2': ctx.entry_vals['output_trials'], 'Dcreate0': dict(run.ghost)})
+        run.sg.update({'NT': ctx.entry_vals[ro['pool'] or 'new_trials'], 'out2': ctx.entry_vals[ro['output']], 'Dcreate0': dict(run.ghost)})
         run.sg['m0'] = S.max_id_of(it, sk)
     NT, out2, Dc = run.sg['NT'], run.sg['out2'], run.sg['Dcreate0']
     m0 = run.sg['m0']
@@ -278,7 +311,7 @@ def _queued(run, sk, new, jj):
 def _inv_surplus(it, fr, ctx):
     """for remain_trial in new_trials: stored REQUESTED with the next ids."""
     run = it.run
-    req = fr.env['request']
+    req = fr.env[_roles(fr, ctx)['request']]
     client, count, sk = request_terms(req)
     new = ctx.iter
     if ctx.phase == 'init':
